@@ -131,7 +131,8 @@ func mentions(f *ssa.Function, consts ...string) map[string]bool {
 					}
 					if s, ok := constString(*op); ok {
 						for _, c := range consts {
-							if s == c {
+							// a longer constant also counts when folded with what follows it ("X-Amz-Meta" + ".")
+							if s == c || (len(c) >= 4 && strings.HasPrefix(s, c)) {
 								out[c] = true
 							}
 						}
